@@ -188,11 +188,41 @@ pub fn c08(m: &mut Mon, w: &mut World, _rng: &mut Rng) {
     };
     let mut results: Vec<(String, BTreeMap<String, usize>, Vec<String>)> = vec![];
     let n = blobs.len();
-    for perm in 0..3 {
-        let mut order: Vec<usize> = (0..n).collect();
-        if perm > 0 {
-            rng.shuffle(&mut order);
+    // small sets exhaustively (all n! orders for n <= 3, and for n = 4 in 40% of the histories), else 3 orders
+    fn all_perms(n: usize) -> Vec<Vec<usize>> {
+        fn rec(cur: &mut Vec<usize>, used: &mut Vec<bool>, n: usize, out: &mut Vec<Vec<usize>>) {
+            if cur.len() == n {
+                out.push(cur.clone());
+                return;
+            }
+            for i in 0..n {
+                if !used[i] {
+                    used[i] = true;
+                    cur.push(i);
+                    rec(cur, used, n, out);
+                    cur.pop();
+                    used[i] = false;
+                }
+            }
         }
+        let mut out = vec![];
+        rec(&mut vec![], &mut vec![false; n], n, &mut out);
+        out
+    }
+    let exhaustive = n <= 3 || (n == 4 && rng.chance(40));
+    let orders: Vec<Vec<usize>> = if exhaustive {
+        m.count(&format!("c08_exhaustive_permutations_n{n}"));
+        all_perms(n)
+    } else {
+        let mut v = vec![(0..n).collect::<Vec<usize>>()];
+        for _ in 0..2 {
+            let mut o: Vec<usize> = (0..n).collect();
+            rng.shuffle(&mut o);
+            v.push(o);
+        }
+        v
+    };
+    for order in orders {
         match merge_all(w, obs, &order, vec![]) {
             Ok(acc) => {
                 let d = interp::dec(&acc);
